@@ -360,7 +360,7 @@ def build_topdown_predictor(mods, scene, cfg):
     torch, OmegaConf, predictors = mods
     stub_c = make_stub(torch, "centroid", scene, cfg["os_c"])
     stub_i = make_stub(torch, "instance", scene, cfg["os_i"])
-    crop = [cfg["crop"], cfg["crop"]] if isinstance(cfg["crop"], int) else list(cfg["crop"])
+    crop = [cfg["crop"], cfg["crop"]] if isinstance(cfg["crop"], int) else list(cfg["crop"])      # (height, width)
     cc = base_cfg(OmegaConf, "centroid", cfg["os_c"], cfg["scale_c"], cfg["ms_c"], cfg["max_h"], cfg["max_w"])
     ci = base_cfg(OmegaConf, "centered_instance", cfg["os_i"], cfg["scale_i"], cfg["ms_i"], cfg["max_h"],
                   cfg["max_w"], crop=crop)
@@ -376,22 +376,30 @@ def build_topdown_predictor(mods, scene, cfg):
     return p, stub_c, stub_i
 
 
-def make_sources(scene: Scene, fids: list[int], n_videos: int = 1):
+def make_sources(scene: Scene, fids: list[int], n_videos: int = 1, vid_of: list[int] | None = None):
     """The same frames as a fake video and as a fake labels file.
-    With n_videos > 1 (labels only) frame k lives in video k % n_videos."""
+    With n_videos > 1 (labels only) frame k lives in video k % n_videos; with `vid_of` (one entry per
+    position in `fids`) frame k lives in video vid_of[k] — the videos may then have DIFFERENT frame
+    sizes (every frame of one video has that video's size); videos without a frame are left out.
+    Returns (video holding all frames [None when the sizes differ], labels, [(video index, frame index)])."""
     frames = [make_frame(scene.frames[f]["H"], scene.frames[f]["W"], f) for f in fids]
-    video = FakeVideo(frames, "video0")
-    if n_videos == 1:
+    same = len({fr.shape for fr in frames}) <= 1
+    video = FakeVideo(frames, "video0") if same else None
+    if n_videos == 1 and vid_of is None:
         vids = [video]
         where = [(0, k) for k in range(len(fids))]
     else:
-        buckets = [[] for _ in range(n_videos)]
+        of = [k % n_videos for k in range(len(fids))] if vid_of is None else list(vid_of)
+        used = sorted(set(of))
+        buckets = {v: [] for v in used}
         where = []
         for k, fr in enumerate(frames):
-            v = k % n_videos
-            where.append((v, len(buckets[v])))
+            v = of[k]
+            where.append((used.index(v), len(buckets[v])))
             buckets[v].append(fr)
-        vids = [FakeVideo(b, f"video{v}") for v, b in enumerate(buckets) if b]
+        vids = [FakeVideo(buckets[v], f"video{v}") for v in used]
+        for v in vids:
+            assert len({fr.shape for fr in v.frames}) == 1, "frames of one video must share a size"
     lfs = []
     for k, f in enumerate(fids):
         v, idx = where[k]
@@ -455,7 +463,7 @@ def build_topdown_gt_predictor(mods, scene, cfg):
     LabelsReader only).  cfg: dict(os_i, scale_i, ms_i, max_h, max_w, crop, batch, refinement)."""
     torch, OmegaConf, predictors = mods
     stub_i = make_stub(torch, "instance", scene, cfg["os_i"])
-    crop = [cfg["crop"], cfg["crop"]]
+    crop = [cfg["crop"], cfg["crop"]] if isinstance(cfg["crop"], int) else list(cfg["crop"])      # (height, width)
     ci = base_cfg(OmegaConf, "centered_instance", cfg["os_i"], cfg["scale_i"], cfg["ms_i"], cfg["max_h"],
                   cfg["max_w"], crop=crop)
     pre = OmegaConf.create({"is_rgb": True, "crop_hw": crop, "max_width": None, "max_height": None,
